@@ -74,8 +74,10 @@ struct World {
     acks: Arc<Mutex<Vec<(usize, Op, Result<Option<String>, String>)>>>,
 }
 
-const FILTER: [&str; 18] = [
+const FILTER: [&str; 20] = [
     "start",
+    "cont.next_seq",
+    "log.writer",
     "cont.publish",
     "cont.index.*",
     "log.write_body",
